@@ -395,6 +395,10 @@ func runSQL(r *hx.Run, cfg hx.Config, rnd *hx.Rand) {
 		case 3:
 			// one component out of int32 range, somewhere in the middle
 			parts := bytes.Split(b, []byte("."))
+			if len(parts) < 2 {
+				// a text form with a single component has no middle: leave it as it is
+				break
+			}
 			parts[1+rnd.Intn(len(parts)-1)] = []byte(rnd.Pick("2147483648", "-2147483649", "99999999999999999999", "+7", "-0", "1_0", "0x1", "", " 1", "1e3", "\x00"))
 			b = bytes.Join(parts, []byte("."))
 		}
